@@ -49,12 +49,14 @@ FAIL_VARIANTS = ('add', 'del_atom', 'del_bond', 'charge', 'meta', 'mix')
 EXT_KINDS = ('x_standardize', 'x_canonicalize', 'x_fix_resonance', 'x_neutralize', 'x_standardize_charges', 'x_clean_stereo',
              'x_clean_isotopes', 'x_remove_metals', 'x_remove_acids', 'x_split_metal_salts', 'x_remove_coordinate_bonds')
 
-# documented exceptions: op kind -> (class name, precondition on the pre-state that makes it legitimate)
+# documented exceptions: op kind -> [(class name, precondition key, text)]; legitimate only when the precondition holds on the pre-state
+_AROM = ('InvalidAromaticRing', 'aromatic', 'the molecule has aromatic (order 4) bonds - raised when no Kekule form exists')
+_HVAL = ('ValenceError', 'bad-hydrogen', 'some hydrogen atom has more than one bond or a non-single bond ("Hydrogen atom n has invalid valence")')
 DOC_EXC = {
-    'kekule': ('InvalidAromaticRing', 'the molecule has aromatic (order 4) bonds - raised when no Kekule form exists'),
-    'x_canonicalize': ('InvalidAromaticRing', 'the molecule has aromatic (order 4) bonds - raised by its kekule() step'),
-    'explicify': ('ValenceError', 'some atom has an undefined hydrogen count ("atom n has valence error")'),
-    'implicify': ('ValenceError', 'some hydrogen atom has more than one bond or a non-single bond ("invalid valence")'),
+    'kekule': [_AROM],
+    'explicify': [('ValenceError', 'undefined-h', 'some atom has an undefined hydrogen count ("atom n has valence error")')],
+    'implicify': [_HVAL],
+    'x_canonicalize': [_AROM, _HVAL],  # canonicalize = kekule + standardize + implicify_hydrogens + thiele
 }
 
 
@@ -173,20 +175,17 @@ def _has_aromatic(m):
     return any(b.order == 4 for _, _, b in m.bonds())
 
 
-def _doc_precondition(kind, m):
-    if kind in ('kekule', 'x_canonicalize'):
-        ok = _has_aromatic(m)
-        if kind == 'x_canonicalize':  # canonicalize = kekule + standardize + implicify + thiele: both documented raises
-            ok = ok or _doc_precondition('implicify', m)
-        return ok
-    if kind == 'explicify':
+def _doc_precondition(key, m):
+    if key == 'aromatic':
+        return _has_aromatic(m)
+    if key == 'undefined-h':
         return any(a.implicit_hydrogens is None for a in m._atoms.values())
-    if kind == 'implicify':
+    if key == 'bad-hydrogen':
         for n, a in m._atoms.items():
             if a.atomic_number == 1 and (len(m._bonds[n]) > 1 or any(b.order not in (1, 8) for b in m._bonds[n].values())):
                 return True
         return False
-    return False
+    raise AssertionError(key)
 
 
 def apply_op(m, op):
@@ -382,8 +381,8 @@ def apply_op(m, op):
         raise
     except Exception as e:
         out.raised = type(e).__name__
-        doc = DOC_EXC.get(kind)
-        if doc and doc[0] == out.raised and _doc_precondition(kind, _Pre(atoms0, bonds0, raw0)):
+        pre = _Pre(atoms0, bonds0, raw0)
+        if any(c == out.raised and _doc_precondition(k, pre) for c, k, _ in DOC_EXC.get(kind, ())):
             out.note = ('documented-exception', out.raised)
             out.hmode = 'skip'
             if kind in ('explicify', 'implicify'):  # raised before any change
@@ -704,7 +703,7 @@ def _descend(res, name, smi, st, ops, reads, copies, depth, widths, on_copy_firs
     if rd and changed:
         res['keys'].add(_digest(hk))
         if len(res['samples']) < 2 and len(ops) == depth:
-            res['samples'].append({'history': hk, 'reads_before_last_op': list(rd)[:6], 'result': str(st1.cur)})
+            res['samples'].append({'history': hk, 'reads_before_last_op': list(rd)[:6], 'result': V.read_view(st1.cur, 'str')})
     if st1.cur is st.cur and not on_copy_first:
         pass
     for f, d in probs:
@@ -772,7 +771,7 @@ def _linear_worker(item):
         if not st.cur._atoms:
             break
     if len(res['samples']) < 1:
-        res['samples'].append({'history': history_key(smi, ops)[:300], 'result': str(st.cur)[:120]})
+        res['samples'].append({'history': history_key(smi, ops)[:300], 'result': str(V.read_view(st.cur, 'str'))[:120]})
     p, _ = probe_destructive(st.cur)
     for f, d in p:
         _record(res, f + '@edit-probe', d, name, smi, ops, reads, [False] * len(ops))
@@ -874,7 +873,7 @@ def bounded(run):
                'view: coherence is relative to the library\'s own functions on a fresh object, not to chemistry (C04/C06/C12 speak for that)',
                'stereo labels are carried to the rebuilt molecule by permutation parity of the heavy-neighbour insertion order '
                '(oracles/o13_views.carry_stereo), the reference the signs are stored against',
-               'documented exceptions accepted under their precondition only: ' + '; '.join(f'{k}: {c} when {w}' for k, (c, w) in DOC_EXC.items()),
+               'documented exceptions accepted under their precondition only: ' + '; '.join(f'{k}: {c} when {w}' for k, v in DOC_EXC.items() for c, _, w in v),
                'branching in the tree copies the node molecule (copy() is itself under contract at every branch); the last child of every '
                'node and all random histories continue on the object itself',
                'non-trivial history = a non-empty set of views was read before an operation that changed the molecule (read-mutate-read)')
